@@ -183,6 +183,11 @@ class Gen:
                     self.feat.add('field-shadowing')
             own.append(name)
             d.fields.append((name, self.simple_type(), False))
+        if self.rng.random() < 0.3:
+            # a blank field: it can only be set by a positional literal inside the declaring package and is ignored by ==
+            d.fields.insert(self.rng.randint(1 if d.fields[0][2] else 0, len(d.fields)), ('_', tint(self.kind()), False))
+            d.has_blank = True
+            self.feat.add('blank-field')
         self.P.add_type(d)
         self.structs.append(d)
         return d
@@ -220,7 +225,8 @@ class Gen:
                 if s.kind != 'struct':
                     continue
                 for fn, ft, emb in s.fields:
-                    names.setdefault(fn, []).append(ft)
+                    if fn != '_':              # blank fields cannot be selected
+                        names.setdefault(fn, []).append(ft)
                     if emb:
                         nxt.append(self.emb_decl(ft))
             for fn, fts in names.items():
@@ -346,7 +352,14 @@ class Gen:
             return self.to_any(cx, d)
         h = u[0]
         if h == 'named' and u[1].kind == 'struct':
-            return StructLit(ty, [self.expr(cx, ft, d - 1) for fn, ft, emb in u[1].fields])
+            dd = u[1]
+            if getattr(dd, 'has_blank', False):
+                pos = dd.pkg == cx.pkg and not dd.generic and self.rng.random() < 0.7
+                if pos:
+                    self.feat.add('blank-field-set')
+                return StructLit(ty, [(self.expr(cx, ft, d - 1) if pos else Zero(ft)) if fn == '_' else self.expr(cx, ft, d - 1)
+                                      for fn, ft, emb in dd.fields], positional=pos)
+            return StructLit(ty, [self.expr(cx, ft, d - 1) for fn, ft, emb in dd.fields])
         if h == 'named' and u[1].kind == 'iface':
             return self.iface_value(cx, ty, d)
         if h == 'arr':
